@@ -191,7 +191,12 @@ char *str_schar2oct( char *str, int *len, int *bsize )
 
    for (j = 0; j < i ; j++ )
       {
-      if (isspace(str[j])||iscntrl(str[j])||(str[j]=='\0'))
+      if (str[j] == '\\')
+         {
+         append_char_to_string( &str2, bsize, &l, '\\' );
+         append_char_to_string( &str2, bsize, &l, '\\' );
+         }
+      else if (isspace(str[j])||iscntrl(str[j])||(str[j]=='\0'))
          {
          sprintf( buf, "%.3o", (unsigned char)str[j] );
          append_char_to_string( &str2, bsize, &l, '\\' );
